@@ -159,7 +159,7 @@ struct lname<etl::layout_right> {
     static Model model(Arr const& e, std::size_t R) { return model_right(e, R); }
 };
 
-template <typename L, typename E>
+template <typename L, typename E, std::size_t GE>
 NOINL void canonical(Ctx& c)
 {
     constexpr std::size_t R = E::rank();
@@ -243,6 +243,22 @@ NOINL void canonical(Ctx& c)
         sweep<Idx>(c, s, "mapping(mapping<OtherExtents>):all-dynamic->this", back, mod, offs);
         judge_sweep(c, "operator()(index_type...)", offs, mod, 6);
     }
+    // conversions to other patterns of the same rank with compatible static extents (at most 4 per source pattern, those with
+    // the same rank_dynamic() at other positions first; C19_ext runs every pair at the extents level)
+    for_each_target<Idx, GE, 4>([&]<typename F, std::size_t GF>() {
+        if (!shape_matches<F>(c.shape)) { return; }
+        using MF = typename L::template mapping<F>;
+        static_assert(std::is_constructible_v<MF, M const&>);
+        char const* const op = F::rank_dynamic() == E::rank_dynamic() ? "mapping(mapping<OtherExtents>):same-rank_dynamic,other-positions" : "mapping(mapping<OtherExtents>):other-static/dynamic-pattern";
+        crumb_op(c, s, op);
+        MF const mf(m);
+        cov(c, op, GF);
+        Obs o;
+        observe<MF, true, true, true>(c, s, mf, o);
+        judge_obs(c, s, op, o, x, 100 + GF);
+        sweep<Idx>(c, s, op, mf, mod, offs);
+        judge_sweep(c, "operator()(index_type...)", offs, mod, 100 + GF);
+    });
     // inequality: one dynamic extent changed
     if constexpr (E::rank_dynamic() > 0) {
         for (std::size_t r = 0; r < R; ++r) {
@@ -488,8 +504,8 @@ struct Run {
     {
         using E = sel_t<K>;
         switch (c.group) {
-        case 0: canonical<etl::layout_left, E>(c); break;
-        case 1: canonical<etl::layout_right, E>(c); break;
+        case 0: canonical<etl::layout_left, E, VF_PLO + K * VF_PSTEP>(c); break;
+        case 1: canonical<etl::layout_right, E, VF_PLO + K * VF_PSTEP>(c); break;
         case 2:
             // rank 0 with explicit (empty) strides does not compile on the unfixed tree: covered by the unit C19_probe_stride_rank0
             if constexpr (E::rank() > 0) { strided<E>(c); }
